@@ -21,6 +21,9 @@ VARIABLE pos
 
 DirRefines(a, b) ==
     /\ a.l = b.l /\ a.s = b.s /\ a.r = b.r
+    (* in either configuration the answer is a function of the identifier: asked twice, the same answer twice *)
+    /\ "dir2" \in DOMAIN a => a.dir2 = a.dir
+    /\ "dir2" \in DOMAIN b => b.dir2 = b.dir
     /\ \/ a.dir = b.dir
        \/ /\ StrOfBytes(a.l) \in D.rtlLangs
           /\ a.s = <<>> \/ StrOfBytes(a.s) \notin ListedScripts
